@@ -109,6 +109,22 @@ def leading_zero_x_scalars():
     return out
 
 
+def leading_zero_y_scalars(limit=16):
+    """Committed corpus of (small) scalars whose public key Y-coordinate has a leading zero byte - only the UNCOMPRESSED
+    SEC form shows it; property re-verified at load by the own curve."""
+    import json
+    import os
+    p = os.path.join(os.path.dirname(os.path.dirname(os.path.abspath(__file__))), "corpus", "lzy_scalars.json")
+    if not os.path.exists(p):
+        return []
+    out = []
+    for k in json.load(open(p))[:limit]:
+        k = int(k, 16)
+        if secp.gmul(k)[1] >> 248 == 0:
+            out.append(k)
+    return out
+
+
 _CONF = {}
 _CONF_CASE = {}
 
